@@ -631,15 +631,47 @@ Proof.
     destruct (pick_node_exit_shape _ _ _ _ _ _ _ _ _ _ Epk) as [[]|[_ []]]; congruence.
 Qed.
 
+(* when visitNode makes the session wait, it has appended one step (without exit) on the node *)
+Lemma visit_node_waiting_path : forall a x ri n wt x' v,
+  visit_node a x ri n wt = Done x' v -> s_status (session_ x) <> SWaiting -> s_status (session_ x') = SWaiting ->
+  pth x' = update_nth (pth x) ri (fun p => p ++ [{| st_node := n_id n; st_exit := None |}]).
+Proof.
+  intros a x ri n wt x' v. unfold visit_node.
+  destruct (get_run (session_ x) ri) as [r0|] eqn:Er; [|discriminate].
+  set (x1 := with_session x (fun s => upd_run s ri (run_add_step {| st_node := n_id n; st_exit := None |}))).
+  assert (H1 : pth x1 = update_nth (pth x) ri (fun p => p ++ [{| st_node := n_id n; st_exit := None |}])).
+  { apply (pth_upd_path x ri _ (fun p => p ++ [{| st_node := n_id n; st_exit := None |}])). reflexivity. }
+  match goal with |- context [exec_actions a ?X ri ?P n ?A] => set (x2 := X) end.
+  assert (S2 : s_status (session_ x2) = s_status (session_ x) /\ pth x2 = pth x1).
+  { unfold x2. destruct wt; [destruct (s_trigger (session_ x1))|]; split; try reflexivity. rewrite pth_log_event. reflexivity. }
+  destruct S2 as [S2 P2].
+  destruct (exec_actions a x2 ri (length (r_path r0)) n (n_actions n)) as [x3 b| |] eqn:Ea; try discriminate.
+  destruct (exec_actions_status a (n_actions n) x2 ri (length (r_path r0)) n x3 b Ea) as [S3 _].
+  pose proof (exec_actions_pth _ _ _ _ _ _ _ _ Ea) as P3.
+  destruct b; [intros H A B; inversion H; subst; exfalso; apply A; congruence|].
+  destruct (s_pushed (session_ x3)); [intros H A B; inversion H; subst; exfalso; apply A; congruence|].
+  match goal with |- context [match ?bw with Some _ => _ | None => match pick_node_exit ?A ?X ?R ?N ?P ?I ?T with _ => _ end end] =>
+    destruct bw as [x4|] eqn:Ebw end.
+  - intros H _ _; inversion H; subst.
+    assert (H4 : pth x4 = pth x3).
+    { destruct (n_router n) as [rt|]; [|discriminate]. destruct (rt_wait rt) as [[[] tmo]|]; try discriminate.
+      dmatch_hyp Ebw; [discriminate|]. inversion Ebw; subst. apply pth_log_event. }
+    change (pth (with_session x4 (fun s => upd_run s ri (run_set_status RWaiting))) = update_nth (pth x) ri (fun p => p ++ [{| st_node := n_id n; st_exit := None |}])).
+    rewrite pth_upd by reflexivity. congruence.
+  - destruct (pick_node_exit a x3 ri n (length (r_path r0)) false []) as [x5 [e5 op5]| |] eqn:Epk; try discriminate.
+    intros H A B; inversion H; subst. exfalso. apply A.
+    destruct (pick_node_exit_shape _ _ _ _ _ _ _ _ _ _ Epk) as [[]|[_ []]]; congruence.
+Qed.
+
 (* every waiting run is located on a node whose router has a wait *)
 Definition waiting_on_wait (a : assets) (s : session) : Prop :=
   forall i r, nth_error (s_runs s) i = Some r -> r_status r = RWaiting ->
   exists pos n, path_location a s i = Some (pos, n) /\ wait_of n <> None.
 
 Lemma goto_node_waiting : forall a x l c d x',
-  valid_cat_exits a -> mid_inv x l c (Some d) -> goto_node a x l c d = IStop (ROk x') -> waiting_on_wait a (session_ x').
+  mid_inv x l c (Some d) -> goto_node a x l c d = IStop (ROk x') -> waiting_on_wait a (session_ x').
 Proof.
-  intros a x l c d x' Hv M. unfold goto_node. cbv zeta. cbn [l_trigger l_steps l_cur l_exit l_step l_node l_operand].
+  intros a x l c d x' M. unfold goto_node. cbv zeta. cbn [l_trigger l_steps l_cur l_exit l_step l_node l_operand].
   destruct (l_steps l + 1 >? max_steps (a_opts a))%Z; [discriminate|].
   destruct (get_run (session_ x) c) as [r0|] eqn:Er; [|discriminate].
   destruct (get_flow a (r_flow r0)) as [f|] eqn:Ef; [|discriminate].
@@ -653,8 +685,9 @@ Proof.
   destruct (visit_node_shape _ _ _ _ _ _ _ _ _ Hact (mi_pushed _ _ _ _ M) Ev) as [Ho _].
   assert (Hsh : shape (session_ x') = wait_at c (shape (session_ x))).
   { destruct Ho as [_ Ht _ _|p _ Ht _ _|Hs _ _ _|_ Ht _]; auto; exfalso; apply Hns; congruence. }
-  pose proof (valid_cat_exits_node _ _ _ _ _ Hv Ef En) as Hcat.
-  destruct (visit_node_pth _ _ _ _ _ _ _ _ _ Hcat Ev) as (p0 & eid & Hp0 & _ & Hpy & _ & _).
+  pose proof (visit_node_waiting_path _ _ _ _ _ _ _ Ev Hns Es) as Hpy.
+  assert (Hp0 : nth_error (pth x) c = Some (r_path r0)) by (rewrite nth_error_pth, Er; reflexivity).
+  set (p0 := r_path r0) in *. set (eid := @None id).
   pose proof (visit_node_fl _ _ _ _ _ _ _ Ev) as Hfy.
   intros i r Hi Hrs.
   (* only run c is waiting *)
@@ -686,9 +719,9 @@ Proof.
 Qed.
 
 Lemma cuw_waiting : forall a fuel x l x',
-  valid_cat_exits a -> loop_inv x l -> continue_until_wait fuel a x l = ROk x' -> waiting_on_wait a (session_ x').
+  loop_inv x l -> continue_until_wait fuel a x l = ROk x' -> waiting_on_wait a (session_ x').
 Proof.
-  intros a fuel x l x' Hv HL Hr.
+  intros a fuel x l x' HL Hr.
   pose proof (cuw_induct a loop_inv (fun r => match r with ROk x2 => waiting_on_wait a (session_ x2) | _ => True end)) as P.
   specialize (P ltac:(intros x1 l1 x2 l2 H1 E; pose proof (cuw_iter_inv a x1 l1 H1) as K; rewrite E in K; exact K)).
   assert (Hstop : forall x1 l1 r, loop_inv x1 l1 -> cuw_iter a x1 l1 = IStop r ->
@@ -709,16 +742,16 @@ Proof.
 Qed.
 
 Theorem start_waiting_on_wait : forall a t f x',
-  valid_cat_exits a -> start a t f = ROk x' -> waiting_on_wait a (session_ x').
+  start a t f = ROk x' -> waiting_on_wait a (session_ x').
 Proof.
-  intros a t f x' Hv. unfold start. destruct (get_flow a f) as [fl0|]; [|discriminate].
+  intros a t f x'. unfold start. destruct (get_flow a f) as [fl0|]; [|discriminate].
   intros H. eapply cuw_waiting; eauto. apply loop_inv_start.
 Qed.
 
 Theorem resume_waiting_on_wait : forall a s r tmo x',
-  valid_cat_exits a -> post_inv s -> resume_session a s r tmo = Resumed (ROk x') -> waiting_on_wait a (session_ x').
+  post_inv s -> resume_session a s r tmo = Resumed (ROk x') -> waiting_on_wait a (session_ x').
 Proof.
-  intros a s r tmo x' Hv Hpost H.
+  intros a s r tmo x' Hpost H.
   destruct (resume_decompose _ _ _ _ _ Hpost H) as [(y & wi & c & E & Hc & Hp & _)|(x2 & l & E & HL & _)].
   - inversion E; subst. apply none_live_waiting_on_wait.
     pose proof (fail_session_post y wi c Hc Hp) as [_ [_ K]]. exact K.
@@ -780,4 +813,164 @@ Proof.
     eapply pick_node_exit_timeout_no_goerr; [exact Hr|apply Hvr; exact Hr|exact Hrw|reflexivity|exact E].
   - eapply pick_node_exit_route_no_goerr; [|exact E]. exact Hvr.
   - eapply pick_node_exit_route_no_goerr; [|exact E]. exact Hvr.
+Qed.
+
+(* ================================================================================================== *)
+(* On an unchanged store the flow of every run is in the store                                         *)
+(* ================================================================================================== *)
+
+Definition flows_known (a : assets) (x : st) : Prop :=
+  (forall i fid, nth_error (fl x) i = Some fid -> get_flow a fid <> None) /\
+  (forall p, s_pushed (session_ x) = Some p -> get_flow a (p_flow p) <> None).
+
+Lemma flows_known_same : forall a x x', fl x' = fl x -> s_pushed (session_ x') = s_pushed (session_ x) ->
+  flows_known a x -> flows_known a x'.
+Proof. intros a x x' Hf Hp [A B]. split; [rewrite Hf; exact A|rewrite Hp; exact B]. Qed.
+
+Lemma exec_actions_known : forall a acts x ri pos n x' b,
+  flows_known a x -> exec_actions a x ri pos n acts = Done x' b -> flows_known a x'.
+Proof.
+  induction acts as [|act acts IH]; intros x ri pos n x' b H; simpl.
+  - intros E; inversion E; subst; auto.
+  - destruct (exec_action a x ri pos n act) as [y v| |] eqn:E; try discriminate.
+    assert (Hy : flows_known a y).
+    { revert E. unfold exec_action. destruct act.
+      - destruct (trunc_ellipsis _ _); [|discriminate]. intros E; inversion E; subst.
+        eapply flows_known_same; [apply fl_log_event|reflexivity|exact H].
+      - destruct (trunc_ellipsis _ _); [|discriminate]. intros E.
+        eapply flows_known_same; [eapply save_and_log_fl; eauto|apply (ss_pushed _ _ (save_and_log_shape _ _ _ _ _ _ _ _ _ _ _ E))|exact H].
+      - destruct (get_flow a flow) as [f0|] eqn:Ef; [destruct (negb _)|]; intros E; inversion E; subst.
+        + eapply flows_known_same; [apply (fl_fail_run x ri (Some (ri, pos)) FEnterFlowType)|reflexivity|exact H].
+        + destruct H as [A B]. split; [rewrite fl_log_event; exact A|]. simpl. intros p Hp; inversion Hp; subst. simpl. congruence.
+        + eapply flows_known_same; [apply (fl_fail_run x ri (Some (ri, pos)) FEnterMissingFlow)|reflexivity|exact H]. }
+    destruct (run_status (session_ y) ri) as [[]|]; try (intros E'; eapply IH; [exact Hy|exact E']).
+    intros E'; inversion E'; subst. destruct Hy as [A B]. split; [exact A|]. simpl. intros p Hp; discriminate.
+Qed.
+
+Lemma visit_node_known : forall a x ri n wt x' v,
+  flows_known a x -> visit_node a x ri n wt = Done x' v -> flows_known a x'.
+Proof.
+  intros a x ri n wt x' v H. unfold visit_node.
+  destruct (get_run (session_ x) ri) as [r0|] eqn:Er; [|discriminate].
+  set (x1 := with_session x (fun s => upd_run s ri (run_add_step {| st_node := n_id n; st_exit := None |}))).
+  match goal with |- context [exec_actions a ?X ri ?P n ?A] => set (x2 := X) end.
+  assert (H1 : flows_known a x1) by (eapply flows_known_same; [apply fl_upd; reflexivity|reflexivity|exact H]).
+  assert (H2 : flows_known a x2).
+  { unfold x2. destruct wt; [destruct (s_trigger (session_ x1))|]; try exact H1.
+    eapply flows_known_same; [rewrite fl_log_event; reflexivity|reflexivity|exact H1]. }
+  destruct (exec_actions a x2 ri (length (r_path r0)) n (n_actions n)) as [x3 b| |] eqn:Ea; try discriminate.
+  pose proof (exec_actions_known _ _ _ _ _ _ _ _ H2 Ea) as H3.
+  destruct b; [intros E; inversion E; subst; exact H3|].
+  destruct (s_pushed (session_ x3)) eqn:Ep3; [intros E; inversion E; subst; exact H3|].
+  match goal with |- context [match ?bw with Some _ => _ | None => match pick_node_exit ?A ?X ?R ?N ?P ?I ?T with _ => _ end end] =>
+    destruct bw as [x4|] eqn:Ebw end.
+  - intros E; inversion E; subst.
+    assert (H4 : fl x4 = fl x3 /\ s_pushed (session_ x4) = s_pushed (session_ x3)).
+    { destruct (n_router n) as [rt|]; [|discriminate]. destruct (rt_wait rt) as [[[] tmo]|]; try discriminate.
+      dmatch_hyp Ebw; [discriminate|]. inversion Ebw; subst. split; [apply fl_log_event|reflexivity]. }
+    destruct H4 as [F4 P4]. eapply flows_known_same; [|simpl; exact P4|exact H3].
+    change (fl (with_session x4 (fun s => upd_run s ri (run_set_status RWaiting))) = fl x3). rewrite fl_upd by reflexivity. exact F4.
+  - destruct (pick_node_exit a x3 ri n (length (r_path r0)) false []) as [x5 [e5 op5]| |] eqn:Epk; try discriminate.
+    intros E; inversion E; subst.
+    eapply flows_known_same; [eapply pick_node_exit_fl; eauto| |exact H3].
+    destruct (pick_node_exit_shape _ _ _ _ _ _ _ _ _ _ Epk) as [[]|[_ []]]; assumption.
+Qed.
+
+Definition iter_known (a : assets) (r : iter) : Prop :=
+  match r with ICont x' _ => flows_known a x' | IStop (ROk x') => flows_known a x' | _ => True end.
+
+Lemma cuw_iter_known : forall a x l, flows_known a x -> iter_known a (cuw_iter a x l).
+Proof.
+  intros a x l H. rewrite cuw_iter_phases.
+  destruct (pick_dest a x l) as [[x1 l1] dest] eqn:Epd.
+  assert (H1 : flows_known a x1).
+  { revert Epd. unfold pick_dest. destruct (s_pushed (session_ x)) as [p|] eqn:Ep.
+    - intros E; inversion E; subst; clear E. destruct H as [A B]. split; [|simpl; intros q Hq; discriminate].
+      intros i fid Hi. unfold fl in Hi; simpl in Hi. rewrite map_app in Hi. simpl in Hi.
+      assert (Hfl0 : map r_flow (s_runs (session_ (if p_terminal p then with_session x exit_all_completed else x))) = fl x).
+      { destruct (p_terminal p); [|reflexivity]. unfold fl, exit_all_completed; simpl. rewrite map_map. apply map_ext. reflexivity. }
+      rewrite Hfl0 in Hi. apply nth_error_snoc_inv in Hi. destruct Hi as [[_ Hi]|[_ ->]]; [eapply A; eauto|eapply B; eauto].
+    - destruct (l_exit l); [|intros E; inversion E; subst; exact H].
+      intros E. assert (Hs : session_ x1 = session_ x) by (revert E; repeat dmatch; intros E; inversion E; subst; auto).
+      eapply flows_known_same; [unfold fl; rewrite Hs; reflexivity|rewrite Hs; reflexivity|exact H]. }
+  destruct (l_cur l1) as [c|]; [|exact I].
+  destruct dest as [d|].
+  - unfold goto_node. cbv zeta. cbn [l_trigger l_steps l_cur l_exit l_step l_node l_operand].
+    destruct (l_steps l1 + 1 >? max_steps (a_opts a))%Z.
+    { simpl. eapply flows_known_same; [apply fl_fail_run|reflexivity|exact H1]. }
+    destruct (get_run (session_ x1) c) as [r0|]; [|exact I].
+    destruct (get_flow a (r_flow r0)) as [f|]; [|exact I].
+    destruct (get_node f d) as [n|]; [|exact I].
+    destruct (visit_node a x1 c n (l_trigger l1)) as [y [[pos e] op]|y|] eqn:Ev; try exact I.
+    pose proof (visit_node_known _ _ _ _ _ _ _ H1 Ev) as Hy.
+    destruct (sstatus_eqb (s_status (session_ y)) SWaiting); exact Hy.
+  - assert (K : forall r, finish_run a x1 l1 c = r -> iter_known a r).
+    { intros r. unfold finish_run.
+      set (y1 := match get_run (session_ x1) c with
+                 | Some r => if r_exited r then x1 else with_session x1 (fun s => upd_run s c (run_exit RCompleted))
+                 | None => x1 end).
+      assert (Hy1 : flows_known a y1).
+      { unfold y1. destruct (get_run (session_ x1) c) as [r0|]; [destruct (r_exited r0)|]; auto.
+        eapply flows_known_same; [apply fl_upd; reflexivity|reflexivity|exact H1]. }
+      assert (Hfail : forall pi sr cc, flows_known a (fail_run y1 pi sr cc)).
+      { intros. eapply flows_known_same; [apply fl_fail_run|reflexivity|exact Hy1]. }
+      cbv zeta.
+      destruct (match get_run (session_ y1) c with Some r => r_parent r | None => None end) as [pi|].
+      2:{ intros <-. simpl. eapply flows_known_same; [| |exact Hy1]; reflexivity. }
+      destruct (run_status (session_ y1) pi) as [[]|];
+        try (intros <-; simpl; eapply flows_known_same; [| |exact Hy1]; reflexivity).
+      destruct (negb match run_status (session_ y1) c with Some RFailed => true | _ => false end).
+      - destruct (match get_run (session_ y1) pi with
+                  | Some r0 => match get_flow a (r_flow r0) with Some _ => false | None => true end
+                  | None => true end); [intros <-; apply Hfail|].
+        pose proof (find_resume_exit_fl a y1 pi false []) as Kf. pose proof (find_resume_exit_shape a y1 pi false []) as Ks.
+        destruct (find_resume_exit a y1 pi false []) as [z e op|z|z|]; try (intros <-; exact I).
+        + intros <-. simpl. eapply flows_known_same; [exact Kf| |exact Hy1].
+          destruct Ks as [[[] _]|[_ []]]; assumption.
+        + subst z. intros <-. apply Hfail.
+      - intros <-. apply Hfail. }
+    apply K. reflexivity.
+Qed.
+
+Lemma cuw_known : forall a fuel x l x', flows_known a x -> continue_until_wait fuel a x l = ROk x' -> flows_known a x'.
+Proof.
+  intros a fuel x l x' H Hr.
+  pose proof (cuw_induct a (fun x1 _ => flows_known a x1) (fun r => match r with ROk x2 => flows_known a x2 | _ => True end)) as P.
+  specialize (P ltac:(intros x1 l1 x2 l2 H1 E; pose proof (cuw_iter_known a x1 l1 H1) as K; rewrite E in K; exact K)).
+  specialize (P ltac:(intros x1 l1 r H1 E; pose proof (cuw_iter_known a x1 l1 H1) as K; rewrite E in K; destruct r; auto)).
+  specialize (P I fuel x l H). rewrite Hr in P. exact P.
+Qed.
+
+Theorem reachable_flows_known : forall a s, reachable_in a s ->
+  forall i r, nth_error (s_runs s) i = Some r -> exists f, get_flow a (r_flow r) = Some f.
+Proof.
+  intros a s H.
+  assert (K : flows_known a {| session_ := s; sprint_ := empty_sprint |}).
+  { induction H.
+    - revert H. unfold start. destruct (get_flow a f) as [fl0|] eqn:Ef; [|discriminate]. intros H.
+      assert (K0 : flows_known a {| session_ := set_pushed (set_type (new_session t f) (f_type fl0)) (Some {| p_flow := f; p_terminal := false |});
+                                    sprint_ := empty_sprint |}).
+      { split; [intros i fid Hi; destruct i; discriminate|]. simpl. intros p Hp; inversion Hp; subst; simpl. congruence. }
+      pose proof (cuw_known a _ _ _ _ K0 H) as [A B]. split; [exact A|exact B].
+    - assert (Hpost : post_inv s) by (apply reachable_post; eapply reachable_in_reachable; eauto).
+      assert (H1 : flows_known a (resume_x0 s)) by (eapply flows_known_same; [| |exact IHreachable_in]; reflexivity).
+      destruct (resume_decompose _ _ _ _ _ Hpost H0) as [(y & wi & c & E & _ & _ & _ & _ & Hy)|(x2 & l & E & _ & _ & _ & _ & wi & pos & e & op & _ & _ & _ & Hfre & _)].
+      + inversion E; subst. destruct (fail_session_fl_pth y wi c) as [A _].
+        assert (Hyk : flows_known a y).
+        { destruct Hy as [->|(pos & n & _ & ->)]; [exact IHreachable_in|].
+          destruct (apply_resume_fl_pth (resume_x0 s) wi (Some (wi, pos)) r) as [A' _].
+          destruct (apply_resume_shape (resume_x0 s) wi (Some (wi, pos)) r) as (g & _ & _ & _ & Hp & _).
+          eapply flows_known_same; [exact A'|exact Hp|exact H1]. }
+        eapply flows_known_same; [exact A|reflexivity|exact Hyk].
+      + destruct (apply_resume_fl_pth (resume_x0 s) wi (Some (wi, pos)) r) as [A' _].
+        destruct (apply_resume_shape (resume_x0 s) wi (Some (wi, pos)) r) as (g & _ & _ & _ & Hp & _).
+        assert (H2 : flows_known a (apply_resume (resume_x0 s) wi (Some (wi, pos)) r)) by (eapply flows_known_same; [exact A'|exact Hp|exact H1]).
+        pose proof (find_resume_exit_fl a (apply_resume (resume_x0 s) wi (Some (wi, pos)) r) wi (is_timeout r) tmo) as Kf. rewrite Hfre in Kf.
+        pose proof (find_resume_exit_shape a (apply_resume (resume_x0 s) wi (Some (wi, pos)) r) wi (is_timeout r) tmo) as Ks. rewrite Hfre in Ks.
+        assert (H3 : flows_known a x2).
+        { eapply flows_known_same; [exact Kf| |exact H2]. destruct Ks as [[[] _]|[_ []]]; assumption. }
+        symmetry in E. pose proof (cuw_known a _ _ _ _ H3 E) as [A B]. split; [exact A|exact B]. }
+  intros i r Hi. destruct K as [A _].
+  destruct (get_flow a (r_flow r)) as [f|] eqn:Ef; [eauto|]. exfalso. apply (A i (r_flow r)); [|exact Ef].
+  rewrite nth_error_fl. unfold get_run. simpl. rewrite Hi. reflexivity.
 Qed.
